@@ -100,45 +100,9 @@ func init() {
 	})
 }
 
-// Build: as baseSpace.Build; with the crash / twin oracles the space also tracks commits and can rebuild
-// its history on a fresh world (histories then contain commit / cache-drop / reopen events, so that
-// collision groups are also operated on after they were decoded from their registers).
-func (c *collSpace) Build(path []Op) (*World, error) {
-	w := c.newWorld()
-	if w.Digests != nil {
-		setCollisionLimit(w.Digests.Limit)
-	}
-	if c.spec.Has("crash") || c.spec.Has("twin") || c.spec.Has("faults") {
-		w.KeyStorage = true
-		w.TrackCommits = c.spec.Has("crash")
-		w.TwinBase = func() (*World, error) { return c.newWorld(), nil }
-	}
-	for _, op := range c.seed {
-		if err := w.Apply(op); err != nil {
-			return nil, fmt.Errorf("seed op %s: %w", op, err)
-		}
-	}
-	for _, op := range path {
-		if err := w.Apply(op); err != nil {
-			return nil, err
-		}
-	}
-	return w, nil
-}
-
 func (c *collSpace) Ops(w *World) []Op {
-	var ops []Op
-	for _, ev := range c.spec.Oracles {
-		switch ev {
-		case "ev:commit1":
-			ops = append(ops, Op{K: "commit", N: 1})
-		case "ev:cdrop":
-			ops = append(ops, Op{K: "cdrop"})
-		case "ev:creopen":
-			ops = append(ops, Op{K: "creopen"})
-		}
-	}
-	lookups := !(c.spec.Has("crash") || c.spec.Has("twin"))
+	ops := c.eventOps()
+	lookups := !c.noLookups()
 	for k := 0; k < c.spec.Keys; k++ {
 		for _, cl := range c.spec.Classes {
 			ops = append(ops, Op{K: "mset", C: 0, Key: k, V: cl})
@@ -205,7 +169,7 @@ func OOrder(w *World) error {
 
 func init() {
 	RegisterCheck(&CheckDef{ID: "C12", Level: "model_checking", Run: func(r *Run) {
-		r.Rule = "for EVERY order-isomorphism class of 4-level digest assignments of the universe keys (caller-supplied digester): explicit-state BFS to closure of the map over Set(small|big)/Remove/Get/Has on every key, with collision limits 255, 0, 1, 2; every transition compared with a dictionary model; states checked by VerifyMap (same digester), an independent structure traversal, canonical iteration order, and the refusal rule (insert of an absent key refused with a collision-limit error iff its first-level digest is already shared by more than the limit of entries with distinct second-level digests; a refused insert leaves the state key unchanged; updates never refused)"
+		r.Rule = "for EVERY order-isomorphism class of 4-level digest assignments of the universe keys (caller-supplied digester): explicit-state BFS to closure of the map over Set(small|big)/Remove/Get/Has on every key, with collision limits 255, 0, 1, 2; every transition compared with a dictionary model; states checked by VerifyMap (same digester), an independent structure traversal, canonical iteration order, commit / reopen events inside histories (differential against the event-free history), and the refusal rule (insert of an absent key refused with a collision-limit error iff its first-level digest is already shared by more than the limit of entries with distinct second-level digests; a refused insert leaves the state key unchanged; updates never refused)"
 		r.Assumptions = []string{
 			"digest assignments are enumerated up to order-isomorphism (ordered refinement chains of set partitions): the code only compares digests of keys that collide on all previous levels",
 			"3 keys (121 classes) in the quick tier, 4 keys (2169 classes) in the thorough tier",
@@ -234,6 +198,15 @@ func init() {
 		}
 		r.ExploreSpecs(specs)
 		r.ExploreSpecs(collMetaSpecs(r, []string{"sem", "struct", "order", "notrace", "reopen"}))
+		// collision groups that were committed, evicted or decoded from their registers in the middle of a history
+		// (commit / commit+reopen as alphabet operations, depth-bounded): per-operation results, content and final
+		// registers must equal those of the same history without the events
+		ed := 6
+		if r.Thorough() {
+			ed = 8
+		}
+		evs := collEventSpecs(r, []string{"twin", "ev:commit1", "ev:creopen"}, 1, ed)
+		r.ExploreSpecs(evs)
 		// collisions under the DEFAULT digester (keys built to collide on the first level for every seed):
 		// deeper levels come from the pooled BLAKE3 digester
 		r.ExploreSpecs([]Spec{
